@@ -2,7 +2,7 @@
 From Coq Require Import List ZArith NArith Bool Arith Lia.
 From GoProbe.Base Require Import CorrLib.
 From GoProbe.C04 Require Import Model.
-From GoProbe.C30 Require Import C04P1 C04P2 C04P3 C04P4 C04P5.
+From GoProbe.C30 Require Import C04P1 C04P2 C04P3 C04P4 C04P5 C04PC.
 From GoProbe.C30 Require Import WInv WInv2.
 Import ListNotations.
 
@@ -61,7 +61,7 @@ Definition WoSpec (s : fs) (ops : list fsop) (a : adb) (nf : dkey -> nat) (w : w
     (forall t, k1 < t -> t <= k2 -> GoodS (apply_all s (firstn t ops)) (adb_put a w) nf) /\
     (forall t, k2 < t -> GoodS (apply_all s (firstn t ops)) (adb_put a w) (nf_put a w nf)).
 
-Lemma wo_rejected s a nf w ops : Forall not_rename ops -> GoodS s a nf -> clean a nf -> adb_put a w = a ->
+Lemma wo_rejected s a nf w ops : Forall (op_ok a) ops -> GoodS s a nf -> clean a nf -> adb_put a w = a ->
   WoSpec s ops a nf w.
 Proof.
   intros F G C E. exists (length ops), (length ops). split; auto. split; [|split].
@@ -73,11 +73,13 @@ Proof.
 Qed.
 
 Lemma wo_split_good P s a nf w p :
-  Forall not_rename P -> GoodS s a nf -> clean a nf -> (exists d, day_at (apply_all s P) p = Some d) ->
+  Forall (op_ok a) P -> GoodS s a nf -> clean a nf -> wf_w w ->
+  (exists d, day_at (apply_all s P) p = Some d /\
+             forall c, c < ncols -> read_col d c (clen c (daylist a (w_key w))) (w_len w c) = Some (blk w c)) ->
   dp_key p = w_key w -> put_ok a w = true ->
   WoSpec s (P ++ commit_ops p (cur_meta a (w_key w)) w) a nf w.
 Proof.
-  intros FP G C [d1 D1] K PO.
+  intros FP G C WFw (d1 & D1 & NEW1) K PO.
   set (m' := meta_add (cur_meta a (w_key w)) w).
   set (t := RTmp p (w_id w)).
   set (C4 := [OOpenX t; OWrite t 0 (WMeta m'); OClose t; OChmod t]).
@@ -87,20 +89,22 @@ Proof.
   set (TL := [OUnlink t; ORmdir t]).
   assert (EC : commit_ops p (cur_meta a (w_key w)) w = C4 ++ R1 :: RD ++ TL) by reflexivity.
   rewrite EC, app_assoc. set (Q := P ++ C4).
-  assert (FQ : Forall not_rename Q) by (apply Forall_app; split; auto; repeat constructor).
-  assert (FT : Forall not_rename TL) by (repeat constructor).
+  assert (FQ : Forall (op_ok a) Q) by (apply Forall_app; split; auto; repeat constructor).
+  assert (FT : Forall (op_ok (adb_put a w)) TL) by (repeat constructor).
   set (sQ := apply_all s Q).
   assert (GQ : GoodS sQ a nf) by (now apply run_good).
   destruct (day_at_some _ _ _ D1) as [_ O1]. apply otot_eqb_eq in O1.
-  assert (D2 : exists d2, day_at sQ p = Some d2 /\ tmp_get (w_id w) (d_tmps d2) = Some (Some m') /\ d_suf d2 = d_suf d1).
+  assert (D2 : exists d2, day_at sQ p = Some d2 /\ tmp_get (w_id w) (d_tmps d2) = Some (Some m') /\ d_suf d2 = d_suf d1
+                          /\ forall c, d_cols d2 c = d_cols d1 c).
   { unfold sQ, Q. rewrite apply_all_app. unfold apply_all at 1, C4; cbn [fold_left apply t]. rewrite D1. cbn [fst].
     erewrite day_at_upd by (eauto). cbn [fst].
     eexists. split; [apply day_at_upd; [apply day_at_upd; eauto|reflexivity]|].
-    split; [cbn; now rewrite Nat.eqb_refl|reflexivity]. }
-  destruct D2 as (d2 & D2 & T2 & S2).
+    split; [cbn; now rewrite Nat.eqb_refl|split; [reflexivity|intros; reflexivity]]. }
+  destruct D2 as (d2 & D2 & T2 & S2 & C2).
   set (s3 := fst (apply sQ R1)).
   assert (NB : nf (w_key w) <= length (daylist a (w_key w))) by (rewrite C; lia).
-  assert (G3 : GoodS s3 (adb_put a w) nf) by (apply (commit_good sQ a nf p (w_id w) d2 w); auto).
+  assert (G3 : GoodS s3 (adb_put a w) nf).
+  { apply (commit_good sQ a nf p (w_id w) d2 w); auto. intros c Hc. rewrite <- (NEW1 c Hc). now apply read_col_ext. }
   assert (D3 : exists d3, day_at s3 p = Some d3 /\ d_suf d3 = d_suf d2).
   { unfold s3, R1, t; cbn [apply]. rewrite D2, T2. cbn [fst]. eexists. split; [apply day_at_upd; eauto|reflexivity]. }
   destruct D3 as (d3 & D3 & S3).
